@@ -22,7 +22,7 @@ VOC = ['foo', 'bar', 'snake_case', '_x', 'x_', 'a_b_c', '*', '-', '+', '#', '>',
        're\u0301sume\u0301_final_', 'a\u200c_b_', '\u0915\u093f_\u0916_', '\u0e19\u0e35\u0e48_x_', 'x\xad*y*z', '*\u0301a']
 SUB = ['foo', 'snake_case', '_x', 'x_', '*', '-', '+', '#', '>', '=', '|', '~', '[', ']', '(', ')', '&', 'AT&T', 'a&b;',
        '3.14', '1.5)', '2', '.', ')', '--', '==', 'a#', '<', 'a<b', '**', '__', '`', '\\a', 'a\\', '1.', '1)', '*a',
-       'a*', '[x]', '&notit;', '12)', '10.', 're\u0301sume\u0301_final_', '``', 'x```']
+       'a*', '[x]', '&notit;', '12)', '10.', 're\u0301sume\u0301_final_', '``', 'x```', 'a|b', '-1|2', '--|x']
 
 BOUNDS = {'quick': dict(full=2, sub=3), 'thorough': dict(full=3, sub=4)}
 
